@@ -114,8 +114,8 @@ def run_exe(exe, timeout=900):
     except subprocess.TimeoutExpired as e:
         if timeout < 900:
             return run_exe(exe, 900)
-        return {"rc": "timeout", "out": (e.stdout or b"").decode("utf-8", "replace"), "err": ""}
-    return {"rc": p.returncode, "out": p.stdout.decode("utf-8", "replace"), "err": p.stderr.decode("utf-8", "replace")[-300:]}
+        return {"rc": "timeout", "out": (e.stdout or b"").decode("latin1"), "err": ""}
+    return {"rc": p.returncode, "out": p.stdout.decode("latin1"), "err": p.stderr.decode("latin1")[-300:]}
 
 
 def agrees(nat, ref):
@@ -185,9 +185,9 @@ def one_program(ctx, B, h, wa, name, path):
         try:
             w = subprocess.run([wa, "run", src], capture_output=True, timeout=900, cwd=d)
             # (on a trap `wa run` prints the runtime's error text to stdout: only clean exits are comparable)
-            res["wasm_target_same"] = (w.stdout.decode("utf-8", "replace") == ref["out"]) if (w.returncode == 0 and ref["st"] == "ok") else None
+            res["wasm_target_same"] = (w.stdout.decode("latin1") == ref["out"]) if (w.returncode == 0 and ref["st"] == "ok") else None
             if res["wasm_target_same"] is False:
-                res["wasm_target_out"] = w.stdout.decode("utf-8", "replace")[:300]
+                res["wasm_target_out"] = w.stdout.decode("latin1")[:300]
         except subprocess.TimeoutExpired:
             res["wasm_target_same"] = None
     if agrees(nat, ref):
@@ -221,9 +221,11 @@ def one_program(ctx, B, h, wa, name, path):
         if r.returncode != 0:
             return None, applied
         return run_exe(p[:-2] + ".exe"), applied
-    # cumulative search in the fixed order of REPAIRS, then leave-one-out on the prefix that was needed
+    # cumulative search in the fixed order of REPAIRS, then leave-one-out on the repairs that were applied
     chosen = []
     natr = None
+    target = ref
+    extra = []
     for nm, _ in REPAIRS:
         natr, applied = build_run(chosen + [nm], "c%d" % len(chosen))
         if nm not in applied:
@@ -233,6 +235,7 @@ def one_program(ctx, B, h, wa, name, path):
             break
     else:
         # every textual repair is in: try the reference mutations
+        found = False
         if natr is not None:
             wat = open(os.path.join(d, "prog.wat")).read()
             for mn, mf in MUTATIONS:
@@ -243,24 +246,27 @@ def one_program(ctx, B, h, wa, name, path):
                     f.write(w2)
                 ref2 = B.run_wazero(os.path.join(d, "prog.mut.wat"))
                 if agrees(natr, ref2):
-                    res["verdict"] = "differs"
-                    res["needed"] = chosen + ["ins:" + mn]
-                    return res
-        res["verdict"] = "differs"
-        res["needed"] = None
-        if natr is not None:
-            wl2 = natr["out"].splitlines()
-            k2 = next((i for i, (a, b) in enumerate(zip(rl, wl2)) if a != b), min(len(rl), len(wl2)))
-            res["after_all_repairs"] = {"line": k2, "native": wl2[k2] if k2 < len(wl2) else "<none: %s>" % native_status(natr["rc"]),
-                                        "wasm": rl[k2] if k2 < len(rl) else "<none: %s>" % ref["st"][:40], "applied": chosen}
-        return res
-    needed = [chosen[-1]]
-    for nm in chosen[:-1]:
-        n2, _ = build_run([x for x in chosen if x != nm], "wo_" + nm[:12])
-        if n2 is None or not agrees(n2, ref):
-            needed.append(nm)
+                    target, extra, found = ref2, ["ins:" + mn], True
+                    break
+        if not found:
+            res["verdict"] = "differs"
+            res["needed"] = None
+            if natr is not None:
+                wl2 = natr["out"].splitlines()
+                k2 = next((i for i, (a, b) in enumerate(zip(rl, wl2)) if a != b), min(len(rl), len(wl2)))
+                res["after_all_repairs"] = {"line": k2, "native": wl2[k2] if k2 < len(wl2) else "<none: %s>" % native_status(natr["rc"]),
+                                            "wasm": rl[k2] if k2 < len(rl) else "<none: %s>" % ref["st"][:40], "applied": chosen}
+            return res
+    needed = []
+    if len(chosen) == 1 and not extra:
+        needed = list(chosen)
+    else:
+        for nm in chosen:
+            n2, _ = build_run([x for x in chosen if x != nm], "wo_" + nm[:12])
+            if n2 is None or not agrees(n2, target):
+                needed.append(nm)
     res["verdict"] = "differs"
-    res["needed"] = needed
+    res["needed"] = needed + extra
     return res
 
 
